@@ -28,6 +28,9 @@
 //! parts:  main      elections, votes, appends, conflict truncations, leadership, proposals,
 //!                   commitment + log compaction behind a snapshot (finalize_to + tick_async, or
 //!                   create_snapshot + truncate_log), deposition of a leader with a compacted log
+//!         concurrent-votes  2-3 threads released on a barrier deliver RequestVotes of one term from
+//!                   different candidates to one real node (real WAL): at most one grant per term,
+//!                   and every byte prefix of the WAL restarts with the granted vote
 //!         snapshot  the same plus `install_snapshot` (direct and via SnapshotResponse) of snapshots
 //!                   from leaders with full and with compacted logs (snapshot starts after index 1)
 
@@ -1648,6 +1651,241 @@ fn child_ack(dir: &Path, seed: u64) -> i32 {
     }
 }
 
+// ------------------------------------------------------------------------------------------------
+// part concurrent-votes: RequestVote messages of one term from different candidates, delivered to
+// ONE real node (real WAL) by threads released on a barrier. RaftNode is Sync and its handlers lock
+// internally, so concurrent handle_message calls are part of its interface.
+// ------------------------------------------------------------------------------------------------
+
+static TICK: std::sync::atomic::AtomicU64 = std::sync::atomic::AtomicU64::new(1);
+fn tick() -> u64 {
+    TICK.fetch_add(1, std::sync::atomic::Ordering::SeqCst)
+}
+
+fn run_concurrent_votes_case(seed: u64, base: &Path, r: &mut Report) -> bool {
+    let mut rng = Rng::new(seed);
+    let dir = Scratch::new(base, "c10v");
+    let wal = dir.join("n0.wal");
+    let img = dir.join("image.wal");
+    let peers: Vec<String> = (1..=4).map(|i| format!("n{}", i)).collect();
+    let replay = json!({"part": "concurrent-votes", "case_seed": seed});
+    let open = |p: &Path| RaftNode::with_wal(NODE.to_string(), peers.clone(), CaptureTransport::new(NODE, &peers), cfg(), p);
+    let node = match open(&wal) {
+        Ok(n) => n,
+        Err(e) => {
+            r.inconclusive(&format!("cannot create the node: {}", first_line(&e.to_string())));
+            return false;
+        }
+    };
+    let mut trace: Vec<String> = Vec::new();
+    // some log first, so that "at least as up to date" means something
+    let mut log_len = 0u64;
+    let mut last_term = 0u64;
+    if rng.chance(2, 3) {
+        let k = 1 + rng.below(3) as u64;
+        let es: Vec<LogEntry> = (1..=k).map(|i| mk_entry(i, 1)).collect();
+        let m = Message::AppendEntries(AppendEntries { term: 1, leader_id: "n4".into(), prev_log_index: 0, prev_log_term: 0, entries: es, leader_commit: 0, block_embedding: None });
+        if let Some(Message::AppendEntriesResponse(a)) = node.handle_message(&"n4".to_string(), &m) {
+            if a.success {
+                log_len = k;
+                last_term = 1;
+            }
+        }
+        trace.push(format!("AppendEntries(term 1, {} entries)", k));
+    }
+    // promises: (stamp = WAL length when the round was over, term) and (stamp, term, candidate)
+    let mut terms: Vec<(u64, u64)> = Vec::new();
+    let mut grants: Vec<(u64, u64, String)> = Vec::new();
+    let mut violated = false;
+    let rounds = 6 + rng.below(10);
+    for _ in 0..rounds {
+        let cur = node.current_term();
+        let k = 2 + rng.below(2);
+        let mut cands: Vec<String> = peers[..3].to_vec();
+        rng.shuffle(&mut cands);
+        cands.truncate(k);
+        let kind = rng.below(10);
+        let round_term = cur + 1 + (kind == 9) as u64;
+        if kind >= 6 && kind < 9 {
+            // the term is already current when the requests arrive (a heartbeat announced it)
+            let m = Message::AppendEntries(AppendEntries {
+                term: round_term,
+                leader_id: "n4".into(),
+                prev_log_index: log_len + 5,
+                prev_log_term: round_term,
+                entries: vec![],
+                leader_commit: 0,
+                block_embedding: None,
+            });
+            let _ = node.handle_message(&"n4".to_string(), &m);
+        }
+        let msgs: Vec<(String, Message)> = cands
+            .iter()
+            .enumerate()
+            .map(|(i, c)| {
+                // one request in ten asks for the next term instead (different terms: both may be granted)
+                let t = if kind == 5 && i == 1 { round_term + 1 } else { round_term };
+                (
+                    c.clone(),
+                    Message::RequestVote(RequestVote {
+                        term: t,
+                        candidate_id: c.clone(),
+                        last_log_index: log_len + rng.below(3) as u64,
+                        last_log_term: last_term + rng.below(2) as u64,
+                        state_embedding: SparseVector::new(0),
+                    }),
+                )
+            })
+            .collect();
+        let spins: Vec<u32> = (0..k).map(|_| if rng.bool() { 0 } else { rng.below(400) as u32 }).collect();
+        let barrier = std::sync::Barrier::new(k);
+        let results: Vec<(Option<Message>, u64, u64)> = std::thread::scope(|sc| {
+            let hs: Vec<_> = msgs
+                .iter()
+                .zip(spins.iter())
+                .map(|((c, m), spin)| {
+                    let node = &node;
+                    let barrier = &barrier;
+                    sc.spawn(move || {
+                        barrier.wait();
+                        for _ in 0..*spin {
+                            std::hint::spin_loop();
+                        }
+                        let t0 = tick();
+                        let reply = node.handle_message(c, m);
+                        let t1 = tick();
+                        (reply, t0, t1)
+                    })
+                })
+                .collect();
+            hs.into_iter().map(|h| h.join().unwrap_or((None, 0, 0))).collect()
+        });
+        let stamp = file_len(&wal);
+        r.count("concurrent_vote_rounds", 1);
+        r.count("concurrent_vote_requests", k as u64);
+        let max_start = results.iter().map(|x| x.1).max().unwrap_or(0);
+        let min_end = results.iter().map(|x| x.2).min().unwrap_or(0);
+        if max_start < min_end {
+            r.count("rounds_where_all_requests_overlapped", 1);
+        }
+        let mut any_overlap = false;
+        for a in 0..results.len() {
+            for b in a + 1..results.len() {
+                if results[a].1 < results[b].2 && results[b].1 < results[a].2 {
+                    any_overlap = true;
+                }
+            }
+        }
+        if any_overlap {
+            r.count("rounds_where_both_requests_overlapped", 1);
+        }
+        let mut desc = Vec::new();
+        for ((c, _), (reply, t0, t1)) in msgs.iter().zip(results.iter()) {
+            if let Some(Message::RequestVoteResponse(rv)) = reply {
+                desc.push(format!("{}: term {} granted {} [ticks {}..{}]", c, rv.term, rv.vote_granted, t0, t1));
+                if terms.last().map_or(true, |l| rv.term > l.1) {
+                    terms.push((stamp, rv.term));
+                }
+                if rv.vote_granted {
+                    r.count("concurrent_vote_grants", 1);
+                    if let Some(prev) = grants.iter().find(|g| g.1 == rv.term && g.2 != *c).cloned() {
+                        trace.push(format!("round(term {}): {}", round_term, desc.join("; ")));
+                        r.violation(
+                            "double-vote-granted:concurrent-requests",
+                            format!(
+                                "term {}: the node granted its vote to {} and to {} (requests delivered by {} threads released together; WAL {} bytes after the round) | rounds: {:?}",
+                                rv.term, prev.2, c, k, stamp, trace
+                            ),
+                            replay.clone(),
+                        );
+                        violated = true;
+                    }
+                    grants.push((stamp, rv.term, c.clone()));
+                }
+            }
+        }
+        trace.push(format!("round(term {}): {}", round_term, desc.join("; ")));
+        if violated {
+            return true;
+        }
+    }
+    drop(node);
+    // every byte prefix of the WAL, judged against the promises stamped at the ends of the rounds
+    let Ok(bytes) = std::fs::read(&wal) else {
+        r.inconclusive("cannot read the WAL file back");
+        return false;
+    };
+    let mut nontrivial = false;
+    for x in 0..=bytes.len() as u64 {
+        if std::fs::write(&img, &bytes[..x as usize]).is_err() {
+            r.inconclusive("cannot write crash image");
+            return false;
+        }
+        r.count("concurrent_images_judged", 1);
+        let n = match open(&img) {
+            Ok(n) => n,
+            Err(e) => {
+                let es = e.to_string();
+                r.violation(
+                    format!("restart-fails-{}:concurrent-requests", err_class(&es)),
+                    format!("RaftNode::with_wal failed on the first {} bytes of the {}-byte WAL: {} | rounds: {:?}", x, bytes.len(), es, trace),
+                    replay.clone(),
+                );
+                return true;
+            }
+        };
+        let rec = match RaftWal::open(&img).and_then(|w| RaftRecoveryState::from_wal(&w)) {
+            Ok(s) => s,
+            Err(_) => continue,
+        };
+        let rec_term = n.current_term();
+        if let Some(t) = terms.iter().filter(|t| t.0 <= x).last() {
+            if rec_term < t.1 {
+                r.violation(
+                    "term-regressed:concurrent-requests",
+                    format!("restarted from the first {} bytes with term {}, but the node had answered with term {} when the WAL was {} bytes long | rounds: {:?}", x, rec_term, t.1, t.0, trace),
+                    replay.clone(),
+                );
+                return true;
+            }
+        }
+        for g in grants.iter().filter(|g| g.0 <= x && g.1 == rec_term) {
+            nontrivial = true;
+            r.count("concurrent_vote_obligations_checked", 1);
+            if rec.voted_for.as_deref() != Some(g.2.as_str()) {
+                r.violation(
+                    "vote-forgotten:concurrent-requests",
+                    format!(
+                        "restarted from the first {} bytes in term {} with voted_for {:?}, but it had granted its vote of that term to {} (WAL {} bytes long after that round) | rounds: {:?}",
+                        x, rec_term, rec.voted_for, g.2, g.0, trace
+                    ),
+                    replay.clone(),
+                );
+                return true;
+            }
+            // the OTHER candidate asks again after the restart
+            let other = peers.iter().find(|p| **p != g.2).cloned().unwrap_or_else(|| "n9".into());
+            let m = Message::RequestVote(RequestVote { term: rec_term, candidate_id: other.clone(), last_log_index: 1 << 40, last_log_term: 1 << 40, state_embedding: SparseVector::new(0) });
+            if let Some(Message::RequestVoteResponse(rv)) = n.handle_message(&other, &m) {
+                if rv.vote_granted {
+                    r.violation(
+                        "double-vote-granted:concurrent-requests",
+                        format!("after a restart from the first {} bytes the node granted its term-{} vote to {} although it had granted it to {} before | rounds: {:?}", x, rec_term, other, g.2, trace),
+                        replay.clone(),
+                    );
+                    return true;
+                }
+            }
+            break;
+        }
+    }
+    r.eval(hash_combine(hash_bytes(&bytes), 0xC0), nontrivial);
+    if r.want_sample() && nontrivial {
+        r.sample(json!({"part": "concurrent-votes", "case_seed": seed, "rounds": trace.iter().take(8).collect::<Vec<_>>()}));
+    }
+    false
+}
+
 fn free_bytes(p: &Path) -> Option<u64> {
     // `df -Pk` keeps libc out of the harness; only used for a start-up sanity check
     let out = std::process::Command::new("df").arg("-Pk").arg(p).output().ok()?;
@@ -1681,19 +1919,36 @@ fn main() {
     if let Some(p) = &args.replay {
         let v: Value = serde_json::from_str(&std::fs::read_to_string(p).expect("replay file")).expect("json");
         let rp = if v.get("replay").is_some() { &v["replay"] } else { &v };
-        let part = if rp["part"].as_str() == Some("snapshot") { Part::Snapshot } else { Part::Main };
         let seed = rp["case_seed"].as_u64().expect("case_seed");
-        // the case ran under the tier recorded in the replay (image sampling depends on it)
-        let q = rp["quick"].as_bool().unwrap_or(quick);
-        run_case(part, seed, &base, q, &mut total);
+        if rp["part"].as_str() == Some("concurrent-votes") {
+            // thread timing is not replayable: same inputs, repeated until the refutation shows again
+            for _ in 0..200 {
+                if run_concurrent_votes_case(seed, &base, &mut total) {
+                    break;
+                }
+            }
+        } else {
+            let part = if rp["part"].as_str() == Some("snapshot") { Part::Snapshot } else { Part::Main };
+            // the case ran under the tier recorded in the replay (image sampling depends on it)
+            let q = rp["quick"].as_bool().unwrap_or(quick);
+            run_case(part, seed, &base, q, &mut total);
+        }
     } else if space_ok {
         let n_main = args.by_tier(6_000u64, 400_000u64);
-        let rep = par_cases(args.threads, args.seed, n_main, args.budget(40, 560), |_i, s, r| run_case(Part::Main, s, &base, quick, r));
+        let rep = par_cases(args.threads, args.seed, n_main, args.budget(36, 540), |_i, s, r| run_case(Part::Main, s, &base, quick, r));
         total.count("main_cases", rep.counters.get("cases").copied().unwrap_or(0));
         total.merge(rep);
         let n_snap = args.by_tier(1_200u64, 80_000u64);
-        let rep = par_cases(args.threads, args.seed ^ 0x5A, n_snap, args.budget(20, 220), |_i, s, r| run_case(Part::Snapshot, s, &base, quick, r));
+        let rep = par_cases(args.threads, args.seed ^ 0x5A, n_snap, args.budget(18, 200), |_i, s, r| run_case(Part::Snapshot, s, &base, quick, r));
         total.count("snapshot_cases", rep.counters.get("cases").copied().unwrap_or(0));
+        total.merge(rep);
+        // each case runs 2-3 threads of its own
+        let n_conc = args.by_tier(3_000u64, 60_000u64);
+        let workers = (args.threads / 3).max(1);
+        let rep = par_cases(workers, args.seed ^ 0xC7, n_conc, args.budget(6, 60), |_i, s, r| {
+            run_concurrent_votes_case(s, &base, r);
+        });
+        total.count("concurrent_vote_cases", rep.counters.get("cases").copied().unwrap_or(0));
         total.merge(rep);
     }
 
@@ -1707,7 +1962,8 @@ fn main() {
             "a restarted node holds indices (last_log_index - log_length + 1)..=last_log_index (the run of consecutive indices that ends the recovered log); a promised entry must be held there with the same bytes. Entries carried by an AppendEntries at positions the live node has compacted behind a snapshot create no promise (the node answers for the snapshot there), and promises for entries in front of an installed snapshot's first entry end with that install".into(),
             "beyond the letter of the statement, at an ack boundary (no write in flight): the restarted node's last_log_index/last_log_term equal the live node's and its first held index is <= the live node's (a prefix the live node compacted may come back from the WAL) — signature log-differs-at-ack-boundary (a truncated suffix must not reappear); and no entry it holds contradicts the live node's log at that index, the positions the live node had compacted behind an installed snapshot included (reference: the Raft follower/snapshot rules applied to the messages the node answered) — signature restarted-log-contradicts-live-log (entries superseded by a snapshot must not reappear in front of it)".into(),
             "the environment is a well-formed Raft world: one leader per term, leader logs are prefix-consistent, entry content is a function of (index, term); terms in which n0 campaigned are never given to another leader; whatever the live node regards as committed (commit_index: leader_commit of an accepted AppendEntries — never beyond the last entry that message establishes —, own majority acknowledgements, an installed snapshot) is held by every later leader; only committed entries are finalized and compacted; a leader is acknowledged by followers only while no later-term leader exists".into(),
-            "signature = <what>:<context>; context append-after-torn-tail = the image contains records the node appended behind a partial record left by an earlier crash of the chain; after-snapshot-install = the image contains records written after a snapshot install; else clean-wal".into(),
+            "part concurrent-votes: a case = one real node with a real WAL (optionally a few entries first), 6-15 rounds; in a round 2-3 threads released on one barrier (half of them after a short seeded spin) each call handle_message with a RequestVote of the round's term from a different candidate whose log is at least as up to date (variants: the term was announced by a heartbeat before; one request asks for the next term). Invocation and return of every call take a tick of one atomic counter; a round counts as overlapped when two calls' tick intervals intersect. Oracle: over all replies of the case at most one candidate is granted per term (double-vote-granted:concurrent-requests); then every byte prefix of the WAL is restarted and judged against the replies stamped with the WAL length at the end of their round: term, voted_for of the recovered term, and the OTHER candidate's re-delivered request must be refused. Thread timing is not replayable: --replay repeats the case's inputs up to 200 times".into(),
+            "signature = <what>:<context>; context concurrent-requests = part concurrent-votes; context append-after-torn-tail = the image contains records the node appended behind a partial record left by an earlier crash of the chain; after-snapshot-install = the image contains records written after a snapshot install; else clean-wal".into(),
         ],
         floors: if args.replay.is_some() {
             vec![]
@@ -1737,6 +1993,10 @@ fn main() {
                 ("log_compactions", 40),
                 ("conflict_truncations_on_a_compacted_log", 8),
                 ("conflict_truncations_followed_by_entries_inside_the_old_range", 30),
+                ("concurrent_vote_rounds", 500),
+                ("rounds_where_both_requests_overlapped", 200),
+                ("concurrent_vote_grants", 400),
+                ("concurrent_vote_obligations_checked", 5_000),
             ]
         },
         exhaustive: false,
